@@ -1,6 +1,7 @@
 package main
 
 import (
+	"golang.org/x/tools/go/ssa"
 	"encoding/json"
 	"flag"
 	"fmt"
@@ -114,6 +115,7 @@ func (p *Program) generate(only string) []*Obligation {
 	} else {
 		p.runInit()
 	}
+	var pendingHelpers []string
 	var fns []string
 	byName := map[string]*ssaFn{}
 	for _, f := range p.allFunctions() {
@@ -138,6 +140,11 @@ func (p *Program) generate(only string) []*Obligation {
 				// the generator's main ranges over a map: not under contract, observed by the bounded run only
 				continue
 			}
+			if f.fn.Object() != nil && !f.fn.Object().Exported() && f.fn.Signature.Recv() == nil && inlinable(f.fn) {
+				// an unexported loop-free helper: verified where it is called (inlined there)
+				pendingHelpers = append(pendingHelpers, n)
+				continue
+			}
 			tags := []string{"C14"}
 			if f.fn.Pkg == p.Tool {
 				tags = []string{"C17"}
@@ -150,6 +157,13 @@ func (p *Program) generate(only string) []*Obligation {
 		ex.ghostFn = f.verifOnly
 		ex.run()
 		obls = append(obls, ex.obls...)
+	}
+	// helpers without contract must have been inlined somewhere, otherwise nothing verified them
+	for _, n := range pendingHelpers {
+		if !p.inlined[n] && only == "" {
+			obls = append(obls, &Obligation{Name: n + "/contract/missing", Fn: n, Kind: "contract", Failed: true,
+				Reason: "function has no contract and is not called from a verified function", Expect: "unsat", Tags: []string{"C14"}})
+		}
 	}
 	// lemmas and orphans
 	for _, n := range p.Contracts.Order {
@@ -323,3 +337,23 @@ func cmdVC(args []string) {
 	}
 }
 
+
+func inlinable(fn *ssa.Function) bool {
+	if fn.Blocks == nil || len(fn.FreeVars) > 0 {
+		return false
+	}
+	for _, b := range fn.Blocks {
+		for _, s := range b.Succs {
+			if s.Dominates(b) {
+				return false
+			}
+		}
+		for _, in := range b.Instrs {
+			switch in.(type) {
+			case *ssa.Defer, *ssa.Go:
+				return false
+			}
+		}
+	}
+	return true
+}
